@@ -62,6 +62,29 @@ func (c FindCase) dirs(base string) []string {
 	return out
 }
 
+// FindChildNames: names of directories on the way. What a glob, a regular expression or a format
+// string would make of a name is of no concern: a directory name is taken as it is.
+var FindChildNames = []string{"d", "t", "project [wip]", "notes{a,b}", "[ab]", "a*b", "q?z", "back\\slash", "100%d", "プロジェクト"}
+
+// lookalike: for a name with pattern characters, a name the pattern reading of it would match.
+func lookalike(name string) string {
+	switch name {
+	case "project [wip]":
+		return "project w"
+	case "notes{a,b}":
+		return "notesa"
+	case "[ab]":
+		return "a"
+	case "a*b":
+		return "a-and-b"
+	case "q?z":
+		return "qaz"
+	case "back\\slash":
+		return "backslash"
+	}
+	return ""
+}
+
 func (c FindCase) treeKey() string { return fmt.Sprint(c.Cfg, c.Child) }
 
 func (c FindCase) build(base string) error {
@@ -76,6 +99,17 @@ func (c FindCase) build(base string) error {
 	w := func(dir, name string) error { return os.WriteFile(filepath.Join(dir, name), []byte("# x\n"), 0o644) }
 	for i, d := range dirs {
 		var err error
+		if i+1 < len(dirs) {
+			if la := lookalike(c.Child[i]); la != "" {
+				// a sibling of the next directory on the way, with a spokfile of its own: never on the way
+				if err = os.MkdirAll(filepath.Join(d, la), 0o755); err == nil {
+					err = w(filepath.Join(d, la), "spokfile")
+				}
+				if err != nil {
+					return err
+				}
+			}
+		}
 		switch c.Cfg[i] {
 		case lvBefore:
 			err = w(d, "a.txt")
